@@ -161,11 +161,12 @@ def audit(pid, entry, thorough):
 
 
 def load_known():
+    out = []
     p = os.path.join(VERIF, 'known_findings.json')
-    if not os.path.exists(p):
-        return []
-    with open(p) as f:
-        return json.load(f)['findings']
+    if os.path.exists(p):
+        with open(p) as f:
+            out.extend(json.load(f)['findings'])
+    return out
 
 
 def write_replay(pid, kind, payload):
